@@ -21,6 +21,9 @@ INVARIANTS = ["AgeTableSubsetOfCache", "FrozenNeverEvicted", "FrozenNeverAltered
 PROPERTIES = ["OnlyWholeUnfrozenEntries", "CountMonotone", "NoInPlaceWrite", "LoadKeepsFrozen"]
 
 
+FUNCTION_TOKENS = ["item:s_covd", "item:Lie_beta", "item:trace3", "item:s_to_st"]
+
+
 def load_keys(pres):
     """The dictionary a mid-history load_data() call hands over: the inputs except every third one
     (so that some frozen inputs are NOT part of the loaded dictionary and must survive the call)."""
@@ -54,12 +57,12 @@ def cfg_text(consts, invariants=INVARIANTS, properties=PROPERTIES, spec="Spec", 
 def run_model(graph, inputs, requests, max_requests, clear_every, mem_tiny=False, policy="code",
               freeze=True, invariants=INVARIANTS, properties=PROPERTIES, emit=True, max_stack=40,
               simulate=None, depth=None, seed=None, workers=None, timeout=3000, spec="Spec",
-              coverage=False, graph_module=None, extra_defs=None, extra_cfg="", constraint=None, allow_freeze=False, load=None):
+              coverage=False, graph_module=None, extra_defs=None, extra_cfg="", constraint=None, allow_freeze=False, load=None, functions=None):
     gtext = graph_module or X.to_tla(graph, "CoreGraph")
     defs = {
         "Keys": "GKeys", "Helpers": "GHelpers", "Prog": "GProg", "Start": "GStart",
         "Size": "GSize", "Imp": "GImp", "MutKeys": "GMut",
-        "Inputs": tset(inputs), "Requests": tset(requests), "LoadKeys": tset(load or []),
+        "Inputs": tset(inputs), "Requests": tset(requests), "LoadKeys": tset(load or []), "Functions": tset(functions or []),
     }
     defs.update(extra_defs or {})
     name, text, cl = wrapper("AurelCache", defs, extends_extra=", CoreGraph")
@@ -97,6 +100,9 @@ if __name__ == "__main__":
 
 TRACE_INVARIANTS = ["AgeTableSubsetOfCache", "FrozenNeverEvicted", "FrozenNeverAltered", "CacheNeverWritten"]
 TRACE_PROPERTIES = ["OnlyWholeUnfrozenEntries", "CountMonotone", "NoInPlaceWrite", "LoadKeepsFrozen"]
+
+
+FUNCTION_TOKENS = ["item:s_covd", "item:Lie_beta", "item:trace3", "item:s_to_st"]
 
 
 def load_keys(pres):
@@ -161,7 +167,7 @@ def _validate_batch(graph, inputs, freeze, traces, timeout=3000, graph_text=None
     gtext = graph_text or X.to_tla(graph, "CoreGraph")
     allreq = graph["keys"] + graph["helpers"]
     defs = {"Keys": "GKeys", "Helpers": "GHelpers", "Prog": "GProg", "Start": "GStart", "Size": "GSize",
-            "Imp": "GImp", "MutKeys": "GMut", "Inputs": tset(inputs), "Requests": tset(allreq), "LoadKeys": "{}"}
+            "Imp": "GImp", "MutKeys": "GMut", "Inputs": tset(inputs), "Requests": tset(allreq), "LoadKeys": "{}", "Functions": tset(FUNCTION_TOKENS)}
     name, text, cl = wrapper("TraceCache", defs, extends_extra=", CoreGraph")
     text = text.replace("====", "ASSUME RegInit\n====")
     consts = cl + f"""
@@ -179,6 +185,7 @@ def _validate_batch(graph, inputs, freeze, traces, timeout=3000, graph_text=None
     lines += ["CONSTRAINT Progress", "POSTCONDITION Accepted"]
     cfg = "\n".join(lines) + "\n"
     keep = ("ev", "key", "depth", "out", "count", "evicted", "aged_removed", "ndata", "naged", "exc", "frozen")
+    # the model names a method fetched through the item interface "item:<name>"
     slim = [[{k: e[k] for k in keep if k in e} for e in tr] for tr in traces]
     fd, path = tempfile.mkstemp(prefix="vtrace_", suffix=".json")
     with os.fdopen(fd, "w") as fh:
